@@ -39,6 +39,9 @@ func (m *Module) alias(from, of int) string {
 }
 
 func (m *Module) typeExpr(from int, r Ref, imports map[int]bool) string {
+	if t := m.Types[r.Idx]; t.Kind == "uslice" {
+		return "[]" + m.qual(from, m.Types[t.Elem], imports)
+	}
 	s := m.qual(from, m.Types[r.Idx], imports)
 	if r.Ptr {
 		return "*" + s
@@ -85,6 +88,9 @@ func underlying(kind string) string {
 // ctx: "call" inside a provider body (function literals allowed), "const" for wire.Value arguments.
 func (m *Module) construct(from int, r Ref, idExpr string, imports map[int]bool, childIDs func(f Field) string) string {
 	t := m.Types[r.Idx]
+	if t.Kind == "uslice" {
+		return "[]" + m.qual(from, m.Types[t.Elem], imports) + "{" + m.construct(from, Ref{Idx: t.Elem}, idExpr, imports, nil) + "}"
+	}
 	name := m.qual(from, t, imports)
 	var e string
 	switch t.Kind {
@@ -134,6 +140,29 @@ func (m *Module) construct(from int, r Ref, idExpr string, imports map[int]bool,
 func (m *Module) constExpr(from int, t *Type, imports map[int]bool) string {
 	name := m.qual(from, t, imports)
 	id := fmt.Sprint(t.Src.ConstID)
+	if t.Src.ConstID%2 == 0 {
+		// refer to package-level constants of the type's package instead of literals:
+		// identifiers inside value expressions have to be re-qualified by wire
+		c := fmt.Sprintf("Const%d", t.Idx)
+		if t.Pkg != from {
+			imports[t.Pkg] = true
+			c = m.alias(from, t.Pkg) + "." + c
+		}
+		switch t.Kind {
+		case "struct":
+			return name + "{ID: " + c + "}"
+		case "int", "float":
+			return name + "(" + c + ")"
+		case "slice":
+			return name + "{" + c + ", " + c + "}"
+		case "map":
+			return name + "{\"id\": " + c + "}"
+		case "array":
+			return name + "{" + c + ", " + c + "}"
+		case "iface":
+			return m.implName(from, t, imports) + "{ID: " + c + "}"
+		}
+	}
 	switch t.Kind {
 	case "struct":
 		return name + "{ID: " + id + "}"
@@ -170,6 +199,37 @@ func zeroExpr(kind string, ptr bool, name string) string {
 		return "false"
 	}
 	return "nil"
+}
+
+func hasDecoy(p *Pkg, d string) bool {
+	for _, x := range p.Decoys {
+		if x == d {
+			return true
+		}
+	}
+	return false
+}
+
+// setExpr renders the wire.NewSet(...) expression of a set.
+func (m *Module) setExpr(from int, s *Set, imports map[int]bool) string {
+	var items []string
+	for _, ti := range s.Members {
+		if m.Types[ti].Dead {
+			continue
+		}
+		items = append(items, m.item(from, m.Types[ti], imports))
+	}
+	for _, n := range s.Nested {
+		ns := m.Sets[n]
+		if ns.Pkg == from {
+			items = append(items, ns.Name)
+		} else {
+			imports[ns.Pkg] = true
+			items = append(items, m.alias(from, ns.Pkg)+"."+ns.Name)
+		}
+	}
+	items = inlineGroups(items, s.Inline)
+	return "wire.NewSet(" + strings.Join(items, ", ") + ")"
 }
 
 // inlineGroups wraps part of the items into k anonymous wire.NewSet(...) groups
@@ -296,7 +356,12 @@ func (m *Module) renderTypes(p *Pkg) world.File {
 	for _, d := range p.Decoys {
 		switch d {
 		case "err":
-			b.WriteString("var err error = simrt.DecoyErr\n\n")
+			if !hasDecoy(p, "errnil") {
+				b.WriteString("var err error = simrt.DecoyErr\n\n")
+			}
+		case "errnil":
+			// a package-level err that is nil, as in `var verbose, err = parseFlags()`
+			b.WriteString("var err error\n\n")
 		case "cleanup":
 			b.WriteString("var cleanup = func() { simrt.DecoyCleanup() }\n\n")
 		case "v":
@@ -306,6 +371,11 @@ func (m *Module) renderTypes(p *Pkg) world.File {
 		}
 	}
 	b.WriteString("var _ = simrt.Str\n\n")
+	for _, t := range m.Types {
+		if t.Pkg == p.Idx && !t.Dead && (t.Src.Kind == "value" || t.Src.Kind == "ifacevalue") && t.Src.ConstID%2 == 0 {
+			fmt.Fprintf(&b, "const Const%d = %d\n\n", t.Idx, t.Src.ConstID)
+		}
+	}
 	for _, t := range m.Types {
 		if t.Pkg != p.Idx || t.Dead {
 			continue
@@ -331,6 +401,8 @@ func (m *Module) renderTypes(p *Pkg) world.File {
 			if t.Src.Kind != "struct" {
 				fmt.Fprintf(&b, "func (x %s) VID() int { return x.ID }\n\n", t.Name)
 			}
+		case "uslice":
+			// an unnamed type: nothing to declare
 		default:
 			fmt.Fprintf(&b, "type %s %s\n\n", t.Name, underlying(t.Kind))
 			if t.Kind == "iface" {
@@ -341,7 +413,11 @@ func (m *Module) renderTypes(p *Pkg) world.File {
 		if t.Src.Kind == "func" {
 			var ps, args []string
 			for i, pr := range t.Src.Params {
-				ps = append(ps, fmt.Sprintf("p%d %s", i, m.typeExpr(p.Idx, pr, imports)))
+				te := m.typeExpr(p.Idx, pr, imports)
+				if t.Src.Variadic && i == len(t.Src.Params)-1 {
+					te = "..." + strings.TrimPrefix(te, "[]")
+				}
+				ps = append(ps, fmt.Sprintf("p%d %s", i, te))
 				args = append(args, fmt.Sprintf("p%d", i))
 			}
 			res := Ref{Idx: t.Idx, Ptr: t.Ptr}
@@ -377,6 +453,9 @@ func (m *Module) renderTypes(p *Pkg) world.File {
 			}
 			val := m.construct(p.Idx, res, "h.ID()", imports, childIDs)
 			zero := zeroExpr(t.Kind, t.Ptr, t.Name)
+			if t.Kind == "uslice" {
+				zero = "nil"
+			}
 			if t.Src.HasErr {
 				b.WriteString("\tif h.Fail() {\n\t\tif h.Poison() {\n")
 				poison := m.construct(p.Idx, res, "h.ID()", imports, nil)
@@ -399,11 +478,32 @@ func (m *Module) renderTypes(p *Pkg) world.File {
 			b.WriteString("}\n\n")
 		}
 	}
-	for _, s := range m.Sets {
+	skipNext := false
+	for si, s := range m.Sets {
 		if s.Pkg != p.Idx {
 			continue
 		}
+		if skipNext {
+			skipNext = false
+			continue
+		}
+		if s.AliasOf > 0 {
+			tgt := m.Sets[s.AliasOf-1]
+			ref := tgt.Name
+			if tgt.Pkg != p.Idx {
+				imports[tgt.Pkg] = true
+				ref = m.alias(p.Idx, tgt.Pkg) + "." + tgt.Name
+			}
+			fmt.Fprintf(&b, "var %s = %s\n\n", s.Name, ref)
+			continue
+		}
 		needWire = true
+		if s.Multi && si+1 < len(m.Sets) && m.Sets[si+1].Pkg == p.Idx && m.Sets[si+1].AliasOf == 0 && !m.Sets[si+1].Dup {
+			a, bb := m.setExpr(p.Idx, s, imports), m.setExpr(p.Idx, m.Sets[si+1], imports)
+			fmt.Fprintf(&b, "var %s, %s = %s, %s\n\n", s.Name, m.Sets[si+1].Name, a, bb)
+			skipNext = true
+			continue
+		}
 		var items []string
 		for _, ti := range s.Members {
 			if m.Types[ti].Dead {
